@@ -231,9 +231,9 @@ func (u *c09Upstream) handle(c net.Conn) {
 	}
 	r := rand.New(rand.NewSource(int64(sp.SeedU)))
 	ver := &c09Verifier{seed: sp.SeedC}
-	tc, _ := c.(*net.TCPConn)
-	if sp.SlowRead && tc != nil {
-		tc.SetReadBuffer(4096)
+	tc, _ := c.(interface{ CloseWrite() error })
+	if rb, ok := c.(*net.TCPConn); ok && sp.SlowRead {
+		rb.SetReadBuffer(4096)
 	}
 	rd := &bufReaderConn{Conn: c, br: br}
 	finish := func(err error) {
@@ -281,7 +281,7 @@ func (b *bufReaderConn) Read(p []byte) (int, error) { return b.br.Read(p) }
 
 type c09Rig struct {
 	rg                           *rig
-	up                           *c09Upstream
+	up, upTLS                    *c09Upstream
 	specs                        sync.Map
 	tcpA, tcpPP, sniA, dynA, wsA string
 }
@@ -294,6 +294,13 @@ func newC09Rig(c *ctx) (*c09Rig, error) {
 	}
 	r.up = &c09Upstream{ln: ln, specs: &r.specs}
 	go r.up.serve()
+	tcrt := c11Make("ws-up-cert.pem", "wss-upstream.test")
+	tln, err := tls.Listen("tcp", "127.0.0.1:0", &tls.Config{Certificates: []tls.Certificate{tcrt.TLS}})
+	if err != nil {
+		return nil, err
+	}
+	r.upTLS = &c09Upstream{ln: tln, specs: &r.specs}
+	go r.upTLS.serve()
 	upAddr := ln.Addr().String()
 	pt, pp, ps, pd, pw, dynPort := freePort(), freePort(), freePort(), freePort(), freePort(), freePort()
 	r.tcpA, r.tcpPP, r.sniA, r.wsA = fmt.Sprintf("127.0.0.1:%d", pt), fmt.Sprintf("127.0.0.1:%d", pp), fmt.Sprintf("127.0.0.1:%d", ps), fmt.Sprintf("127.0.0.1:%d", pw)
@@ -312,6 +319,7 @@ func newC09Rig(c *ctx) (*c09Rig, error) {
 		fmt.Sprintf("route add snipp snipp.test/ tcp://%s opts \"proto=tcp pxyproto=true\"", upAddr),
 		fmt.Sprintf("route add dynsvc 127.0.0.1:%d tcp://%s", dynPort, upAddr),
 		fmt.Sprintf("route add wssvc ws.test/ http://%s/", upAddr),
+		fmt.Sprintf("route add wsssvc wss.test/ https://%s/ opts \"tlsskipverify=true\"", tln.Addr().String()),
 	}
 	rg.setManual(strings.Join(lines, "\n"))
 	if err := rg.barrier(); err != nil {
@@ -332,6 +340,9 @@ func (r *c09Rig) close() {
 		r.rg.close()
 	}
 	r.up.ln.Close()
+	if r.upTLS != nil {
+		r.upTLS.ln.Close()
+	}
 }
 
 func c09Hello(sni string) []byte {
@@ -364,7 +375,7 @@ func c09Tunnels(c *ctx) {
 			r := c.rng(int64(900 + g))
 			for i := g; i < n; i += G {
 				sp := &c09Spec{ID: fmt.Sprintf("%016x", uint64(seq.Add(1))|uint64(c.Seed)<<40), upDone: make(chan struct{})}
-				sp.Kind = choose(r, []string{"tcp", "tcp-pp", "sni", "sni", "sni-pp", "dyn", "ws", "ws"})
+				sp.Kind = choose(r, []string{"tcp", "tcp-pp", "sni", "sni", "sni-pp", "dyn", "ws", "ws", "wss"})
 				sp.SeedC, sp.SeedU = r.Uint64(), r.Uint64()
 				size := func() int64 {
 					switch x := r.Intn(12); {
@@ -407,12 +418,12 @@ func c09Tunnels(c *ctx) {
 
 func c09Conn(c *ctx, rg *c09Rig, sp *c09Spec, hello map[string][]byte, r *rand.Rand, bc, bu *atomic.Int64) {
 	c.R.Eval(1)
-	addr := map[string]string{"tcp": rg.tcpA, "tcp-pp": rg.tcpPP, "sni": rg.sniA, "sni-pp": rg.sniA, "dyn": rg.dynA, "ws": rg.wsA}[sp.Kind]
+	addr := map[string]string{"tcp": rg.tcpA, "tcp-pp": rg.tcpPP, "sni": rg.sniA, "sni-pp": rg.sniA, "dyn": rg.dynA, "ws": rg.wsA, "wss": rg.wsA}[sp.Kind]
 	class := fmt.Sprintf("%s/w%d/pause=%v/slow=%v/%s", sp.Kind, sp.WriteMax, sp.Pause, sp.SlowRead, sp.Close)
 	if strings.HasPrefix(sp.Kind, "sni") {
 		class += "/hello-" + sp.HelloMode
 	}
-	if sp.Kind == "ws" {
+	if strings.HasPrefix(sp.Kind, "ws") {
 		class += "/101-" + sp.WS101
 	}
 	in := map[string]any{"Spec": fmt.Sprintf("%+v", struct {
@@ -460,8 +471,8 @@ func c09Conn(c *ctx, rg *c09Rig, sp *c09Spec, hello map[string][]byte, r *rand.R
 		default: // the hello and what follows it in one segment
 			conn.Write(append(append([]byte{}, sniHello...), prelude...))
 		}
-	case "ws":
-		fmt.Fprintf(conn, "GET /ws/%s HTTP/1.1\r\nHost: ws.test\r\nUpgrade: websocket\r\nConnection: Upgrade\r\nSec-WebSocket-Key: dGhlIHNhbXBsZSBub25jZQ==\r\nSec-WebSocket-Version: 13\r\n\r\n", sp.ID)
+	case "ws", "wss":
+		fmt.Fprintf(conn, "GET /ws/%s HTTP/1.1\r\nHost: "+sp.Kind+".test\r\nUpgrade: websocket\r\nConnection: Upgrade\r\nSec-WebSocket-Key: dGhlIHNhbXBsZSBub25jZQ==\r\nSec-WebSocket-Version: 13\r\n\r\n", sp.ID)
 		br := bufio.NewReader(conn)
 		status, err := br.ReadString('\n')
 		if err != nil || !strings.HasPrefix(status, "HTTP/1.1 101") {
